@@ -57,8 +57,16 @@ def respell(text, t, density=35):
     if t.chance(15):
         out.append(t.choose(COMMENTS))
     in_union = False
+    in_directive_def = False
+    depth = 0
     prev = None
     for i, tok in enumerate(toks):
+        if tok == ("name", "directive") and (prev is None or prev[1] != ":") and i + 1 < len(toks) and toks[i + 1] == ("punct", "@"):
+            in_directive_def = True
+        if tok[0] == "punct" and tok[1] in "([{":
+            depth += 1
+        elif tok[0] == "punct" and tok[1] in ")]}":
+            depth -= 1
         if prev is not None:
             if t.chance(density):
                 sep = t.choose(SEPARATORS)
@@ -78,6 +86,13 @@ def respell(text, t, density=35):
             if t.chance(35):
                 out.append(" |")
             in_union = False
+        elif tok == ("name", "implements") and prev is not None and prev[0] == "name" and i + 1 < len(toks) and toks[i + 1][0] == "name":
+            if t.chance(35):
+                out.append(" &")  # optional leading separator of the implemented interfaces
+        elif tok == ("name", "on") and in_directive_def and depth == 0:
+            if t.chance(35):
+                out.append(" |")  # optional leading separator of the directive locations
+            in_directive_def = False
         elif tok[0] == "punct" and tok[1] in "{}":
             in_union = False
         prev = tok
@@ -92,7 +107,9 @@ def same_tokens(a, b):
     def strip(ts):
         res = []
         for i, x in enumerate(ts):
-            if x == ("punct", "|") and res and res[-1] == ("punct", "="):
+            if x == ("punct", "|") and res and res[-1] in (("punct", "="), ("name", "on")):
+                continue
+            if x == ("punct", "&") and res and res[-1] == ("name", "implements"):
                 continue
             res.append(x)
         return res
